@@ -4,6 +4,7 @@ package mc
 
 import (
 	"fmt"
+	ammtypes "github.com/elys-network/elys/x/amm/types"
 	"strings"
 
 	"cosmossdk.io/math"
@@ -94,6 +95,19 @@ func hasPoolEvent(evs []abci.Event, typ string, poolDenom string) bool {
 func OracleC15() *Oracle {
 	zero := sdk.AccAddress(make([]byte, 20))
 	return &Oracle{Name: "C15",
+		// share tokens exist only against what the pool / vault has BOOKED: the minted supply of a pool's
+		// share token equals the pool's own share count in every state (a mint larger than the booked
+		// deposit leaves share tokens without a deposit behind them)
+		State: func(w *World) Measure {
+			ctx := w.RCtx()
+			m := Measure{}
+			for _, p := range w.App.AmmKeeper.GetAllPool(ctx) {
+				d := ammtypes.GetPoolShareDenom(p.PoolId)
+				put(m, fmt.Sprintf("share_supply_vs_pool_book@pool=%d", p.PoolId), w.App.BankKeeper.GetSupply(ctx, d).Amount.Sub(p.TotalShares.Amount))
+				Clauses.Inc("share_supply_vs_pool_book")
+			}
+			return m
+		},
 		Pre: func(w *World, op *Op, plan *BlockPlan) interface{} {
 			ctx := w.RCtx()
 			p := &c15pre{supply: supplyMap(w, ctx), zeroElys: w.App.BankKeeper.GetBalance(ctx, zero, "uelys").Amount, vestRelease: map[string]math.Int{}, height: w.Height() + 1}
